@@ -306,7 +306,10 @@ class BoltzTranslator:
             for e in elts:
                 if isinstance(e, ast.Constant) and e.value is None:
                     ext.append(False)
-                elif isinstance(e, ast.Slice):
+                elif isinstance(e, ast.Slice) and e.step is None and (
+                        (e.lower is None and e.upper is None) or
+                        (const_value(e.lower) == 1 and e.upper is not None and
+                         const_value(e.upper) == -1)):
                     ext.append(True)
                     nsl += 1
                 else:
@@ -456,6 +459,23 @@ class BoltzTranslator:
             fields.append("%s : %s" % (nm, " -> ".join(["nat"] * rk + ["R"])))
         return "Record env := mk_env { %s }." % ";\n  ".join(fields)
 
+    def ones_env(self):
+        """an inhabitant of env (every leaf constantly 1): for satisfiability Examples"""
+        names = sorted(self.used_leaves)
+        return "Definition env_ones : env :=\n  mk_env %s." % " ".join(
+            "(%s1)" % ("fun %s => " % " ".join(["_"] * self.used_leaves[n])
+                       if self.used_leaves[n] else "") for n in names)
+
+    EXAMPLE = {"vprof": "(3 / 5)", "pzv": "0", "ppv": "0", "maxexp": "1000", "vwall": "(1 / 2)"}
+
+    def example_env(self):
+        """a physically sensible inhabitant of env (T = m^2 = 1, v = 3/5, vw = 1/2, p = 0, bosons)
+        on which the hypotheses of source_is_minus_liouville_of_equilibrium are checked"""
+        names = sorted(self.used_leaves)
+        return "Definition env_example : env :=\n  mk_env %s." % " ".join(
+            "(%s%s)" % ("fun %s => " % " ".join(["_"] * self.used_leaves[n])
+                        if self.used_leaves[n] else "", self.EXAMPLE.get(n, "1")) for n in names)
+
     def setter(self, field):
         """record update of one env field + the projection lemmas (rewrite db)"""
         names = sorted(self.used_leaves)
@@ -561,8 +581,94 @@ def derivative_facts(src):
                                 seen.add((k, nm))
                                 work.append((k, s.value))
                             break
-            facts.append((mode, coq, sorted(prof), deriv, py, stmts[pos].lineno))
+            along = _along_chi(mode, py, stmts, pos, seen)
+            facts.append((mode, coq, sorted(prof), deriv, py, stmts[pos].lineno, along))
     return facts
+
+
+def _last_def(stmts, pos, name):
+    for k in range(pos - 1, -1, -1):
+        s = stmts[k]
+        if isinstance(s, ast.Assign) and name in _stores(s):
+            return k, s
+    return None, None
+
+
+def _along_chi(mode, py, stmts, pos, seen):
+    """the derivative operator of the def-use chain acts along chi and the result is cut
+    [1:-1] on the position axis, nowhere else"""
+    val = stmts[pos].value
+    # outermost subscript: position axis (index 1) sliced 1:-1, the others None or `:`
+    if not isinstance(val, ast.Subscript):
+        return False
+    sl = val.slice
+    elts = list(sl.elts) if isinstance(sl, ast.Tuple) else [sl]
+    if len(elts) != 4:
+        return False
+    for k, e in enumerate(elts):
+        if k == 1:
+            if not (isinstance(e, ast.Slice) and e.step is None and const_value(e.lower) == 1
+                    and e.upper is not None and const_value(e.upper) == -1):
+                return False
+        elif isinstance(e, ast.Constant) and e.value is None:
+            continue
+        elif k == 0 and isinstance(e, ast.Slice) and e.lower is None and e.upper is None \
+                and e.step is None and py == "dMsqdChi":
+            continue
+        else:
+            return False
+    names = {nm for (_, nm) in seen} | set(_loads(val))
+    if mode == "Spectral":
+        # <poly>.derivative(k).coefficients with direction[k] == "z", basis[k] == "Cardinal"
+        base = val.value
+        if not (isinstance(base, ast.Attribute) and base.attr == "coefficients" and
+                isinstance(base.value, ast.Call) and isinstance(base.value.func, ast.Attribute)
+                and base.value.func.attr == "derivative" and
+                isinstance(base.value.func.value, ast.Name) and len(base.value.args) == 1
+                and not base.value.keywords):
+            return False
+        axis = const_value(base.value.args[0])
+        _, d = _last_def(stmts, pos, base.value.func.value.id)
+        if d is None or axis is None or not (isinstance(d.value, ast.Call) and
+                                             ast.unparse(d.value.func) == "Polynomial" and
+                                             len(d.value.args) == 5 and not d.value.keywords):
+            return False
+        def aslist(n):
+            if isinstance(n, ast.Constant):
+                return [n.value]
+            if isinstance(n, ast.Tuple):
+                return [e.value if isinstance(e, ast.Constant) else None for e in n.elts]
+            return None
+        bas, dirs = aslist(d.value.args[2]), aslist(d.value.args[3])
+        ep = d.value.args[4]
+        k = int(axis)
+        return bool(bas and dirs and len(bas) == len(dirs) and 0 <= k < len(dirs) and
+                    dirs[k] == "z" and bas[k] == "Cardinal" and
+                    isinstance(ep, ast.Constant) and ep.value is True and
+                    ast.unparse(d.value.args[1]) == "self.grid")
+    # finite differences: through the findiff matrix built on the chi grid (first element of
+    # getCompactCoordinates(endpoints=True)), never the rz one
+    if "derivMatrixChi" not in names or "derivMatrixRz" in names:
+        return False
+    k, d = _last_def(stmts, pos, "derivMatrixChi")
+    if d is None or not (isinstance(d.value, ast.Call) and isinstance(d.value.func, ast.Attribute)
+                         and d.value.func.attr == "matrix" and
+                         isinstance(d.value.func.value, ast.Name)):
+        return False
+    k2, op = _last_def(stmts, k, d.value.func.value.id)
+    if op is None or not (isinstance(op.value, ast.Call) and
+                          ast.unparse(op.value.func) in ("findiff.FinDiff", "FinDiff") and
+                          len(op.value.args) == 1 and isinstance(op.value.args[0], ast.Tuple) and
+                          len(op.value.args[0].elts) == 3):
+        return False
+    ax, gridname, order = op.value.args[0].elts
+    if not (const_value(ax) == 0 and const_value(order) == 1 and isinstance(gridname, ast.Name)):
+        return False
+    k3, g = _last_def(stmts, k2, gridname.id)
+    return bool(g is not None and isinstance(g.targets[0], ast.Tuple) and
+                isinstance(g.targets[0].elts[0], ast.Name) and
+                g.targets[0].elts[0].id == gridname.id and
+                ast.unparse(g.value) == "self.grid.getCompactCoordinates(endpoints=True)")
 
 
 # ------------------------------------------------------------------------------------
@@ -731,6 +837,222 @@ def background_facts(boltz_src, cont_src):
                 span=(fn.lineno, fn.end_lineno, pyrx._sha(ast.unparse(fn))),
                 bspan=(bf.lineno, bf.end_lineno, pyrx._sha(ast.unparse(bf))))
 
+
+# ------------------------------------------------------------------------------------
+# solveBoltzmannEquations: build -> dense double-precision solve -> C-order reshape -> return
+
+AXES = {"len(self.offEqParticles)": "AxParticles", "len(particles)": "AxParticles",
+        "self.grid.M - 1": "AxM1", "self.grid.N - 1": "AxN1"}
+
+
+def _method(src, name, cls="BoltzmannSolver"):
+    for n in ast.parse(src).body:
+        if isinstance(n, ast.ClassDef) and n.name == cls:
+            for f in n.body:
+                if isinstance(f, ast.FunctionDef) and f.name == name:
+                    return f
+    raise TranslateError("%s.%s not found" % (cls, name))
+
+
+def _body(fn):
+    return [st for st in fn.body
+            if not (isinstance(st, ast.Expr) and isinstance(st.value, ast.Constant))]
+
+
+def _axes(node, what):
+    if isinstance(node, ast.Tuple):
+        parts = node.elts
+    else:
+        parts = []
+        while isinstance(node, ast.BinOp) and isinstance(node.op, ast.Mult):
+            parts.insert(0, node.right)
+            node = node.left
+        parts.insert(0, node)
+    out = []
+    for e in parts:
+        a = AXES.get(ast.unparse(e))
+        if a is None:
+            raise TranslateError("%s: unknown extent %s" % (what, ast.unparse(e)))
+        out.append(a)
+    return out
+
+
+def solve_facts(src):
+    fn = _method(src, "solveBoltzmannEquations")
+    if fn.decorator_list or [a.arg for a in fn.args.args] != ["self"]:
+        raise TranslateError("solveBoltzmannEquations: signature / decorators")
+    body = _body(fn)
+    want = ["operator, source, _, _ = self.buildLinearEquations()",
+            "deltaF = np.linalg.solve(operator, source)", None,
+            "deltaF = np.reshape(deltaF, deltaFShape, order='C')", "return deltaF"]
+    if len(body) != len(want):
+        raise TranslateError("solveBoltzmannEquations: body is not build / np.linalg.solve / "
+                             "shape / reshape / return (%d statements, line %d)" % (
+                                 len(body), fn.lineno))
+    for st, w in zip(body, want):
+        if w is not None and ast.unparse(st) != w:
+            raise TranslateError("solveBoltzmannEquations: `%s` where `%s` is expected (line %d)"
+                                 % (ast.unparse(st)[:70], w, st.lineno))
+    sh = body[2]
+    if not (isinstance(sh, ast.Assign) and ast.unparse(sh.targets[0]) == "deltaFShape"):
+        raise TranslateError("solveBoltzmannEquations: shape statement (line %d)" % sh.lineno)
+    shape = _axes(sh.value, "deltaFShape")
+    # the flattening in buildLinearEquations
+    bl = _method(src, "buildLinearEquations")
+    flat = None
+    for st in bl.body:
+        if isinstance(st, ast.Assign) and ast.unparse(st.targets[0]) == "totalSize":
+            flat = _axes(st.value, "totalSize")
+    if flat is None:
+        raise TranslateError("buildLinearEquations: totalSize not found")
+    resh = [ast.unparse(st) for st in bl.body if isinstance(st, ast.Assign) and
+            isinstance(st.value, ast.Call) and ast.unparse(st.value.func) == "np.reshape"]
+    if resh != ["source = np.reshape(source, totalSize, order='C')",
+                "operator = np.reshape(operator, (totalSize, totalSize), order='C')"]:
+        raise TranslateError("buildLinearEquations: flattening statements %r" % resh)
+    return dict(steps=["SBuild", "SSolveDense", "SReshapeC", "SReturn"], shape=shape, flat=flat,
+                span=(fn.lineno, fn.end_lineno, pyrx._sha(ast.unparse(fn))))
+
+
+# ------------------------------------------------------------------------------------
+# how getDeltas / checkLinearization / estimateTruncationError use deltaF
+
+DMETH = {"getDeltas": "MgetDeltas", "checkLinearization": "McheckLinearization",
+         "estimateTruncationError": "MestimateTruncationError"}
+SOLVER_BASES = "('Array', self.basisM, self.basisN, self.basisN)"
+
+
+def _parents(fn):
+    par = {}
+    for n in ast.walk(fn):
+        for c in ast.iter_child_nodes(n):
+            par[c] = n
+    return par
+
+
+def deltaF_use_facts(src):
+    uses = []
+    for mname, coq in DMETH.items():
+        fn = _method(src, mname)
+        if fn.decorator_list:
+            raise TranslateError("%s is decorated" % mname)
+        par = _parents(fn)
+        # names bound to what buildLinearEquations returns
+        built = set()
+        consts = {}
+        for st in ast.walk(fn):
+            if isinstance(st, ast.Assign) and len(st.targets) == 1:
+                if isinstance(st.targets[0], ast.Tuple) and \
+                        ast.unparse(st.value) == "self.buildLinearEquations()":
+                    built |= {e.id for e in st.targets[0].elts if isinstance(e, ast.Name)
+                              and e.id != "_"}
+                if isinstance(st.targets[0], ast.Name) and isinstance(st.value, ast.Tuple):
+                    consts.setdefault(st.targets[0].id, []).append(ast.unparse(st.value))
+        stmts_flat = []
+
+        def flat(b):
+            for st in b:
+                stmts_flat.append(st)
+                if isinstance(st, ast.If):
+                    flat(st.body)
+                    flat(st.orelse)
+        flat(fn.body)
+
+        def stmt_of(n):
+            while n in par and not isinstance(n, ast.stmt):
+                n = par[n]
+            return n
+        for n in ast.walk(fn):
+            if not (isinstance(n, ast.Name) and n.id == "deltaF"):
+                continue
+            st = stmt_of(n)
+            what = "URaw"
+            if isinstance(n.ctx, ast.Store):
+                if ast.unparse(st) == "deltaF = self.solveBoltzmannEquations()" and \
+                        isinstance(par.get(st), ast.If) and \
+                        ast.unparse(par[st].test) == "deltaF is None":
+                    continue
+                uses.append((coq, "URaw", n.lineno, "deltaF is rebound"))
+                continue
+            p = par.get(n)
+            if isinstance(p, ast.Compare) and ast.unparse(p) == "deltaF is None" and \
+                    isinstance(par.get(p), ast.If):
+                what = "UNoneDefault"
+            elif isinstance(p, ast.Call) and isinstance(p.func, ast.Attribute) and \
+                    ast.unparse(p.func.value) == "self" and p.func.attr in DMETH and \
+                    p.args == [n] and not p.keywords:
+                what = "UPassToSelf"
+            elif isinstance(p, ast.keyword) and p.arg == "deltaF" and \
+                    isinstance(par.get(p), ast.Call) and \
+                    ast.unparse(par[p].func) == "BoltzmannResults":
+                what = "UResultField"
+            elif isinstance(p, ast.Call) and ast.unparse(p.func) == "Polynomial" and \
+                    p.args and p.args[0] is n and len(p.args) == 5 and not p.keywords:
+                bas = p.args[2]
+                bs = ast.unparse(bas)
+                if isinstance(bas, ast.Name) and len(consts.get(bas.id, [])) == 1:
+                    bs = consts[bas.id][0]
+                ep = p.args[4]
+                target = None
+                if bs == SOLVER_BASES and isinstance(ep, ast.Constant) and ep.value is False \
+                        and ast.unparse(p.args[1]) == "self.grid" and \
+                        isinstance(st, ast.Assign) and st.value is p and \
+                        isinstance(st.targets[0], ast.Name):
+                    var = st.targets[0].id
+                    k = stmts_flat.index(st)
+                    nxt = stmts_flat[k + 1] if k + 1 < len(stmts_flat) else None
+                    if nxt is not None and isinstance(nxt, ast.Expr) and \
+                            isinstance(nxt.value, ast.Call) and not nxt.value.keywords and \
+                            ast.unparse(nxt.value.func) == var + ".changeBasis" and \
+                            len(nxt.value.args) == 1:
+                        a = ast.unparse(nxt.value.args[0])
+                        if a == "('Array', 'Cardinal', 'Cardinal', 'Cardinal')":
+                            target = "true"
+                        elif a == "('Array', 'Chebyshev', 'Chebyshev', 'Chebyshev')":
+                            target = "false"
+                if target is not None:
+                    what = "(UPolyThenChange %s)" % target
+            elif isinstance(p, ast.Subscript) and p.value is n and \
+                    ast.unparse(p.slice) == "(None, None, None, None, ...)":
+                m = par.get(p)
+                s_ = par.get(m)
+                if isinstance(m, ast.BinOp) and isinstance(m.op, ast.Mult) and m.right is p and \
+                        isinstance(m.left, ast.Name) and m.left.id in built and \
+                        isinstance(s_, ast.Call) and ast.unparse(s_.func) == "np.sum" and \
+                        s_.args == [m] and [(k.arg, ast.unparse(k.value)) for k in s_.keywords] \
+                        == [("axis", "(4, 5, 6, 7)")]:
+                    what = "UTimesBuilt"
+            uses.append((coq, what, n.lineno, ast.unparse(st)[:60]))
+    return uses
+
+
+# ------------------------------------------------------------------------------------
+# copy hooks of the classes reachable from the solver
+
+COPY_HOOKS = tuple(h for h in pyrx.HOOK_METHODS if h in (
+    "__deepcopy__", "__copy__", "__getstate__", "__setstate__", "__reduce__", "__reduce_ex__"))
+
+
+def copy_hook_facts(sources):
+    """(file, class, hook) for every copy hook defined by a class in `sources` (dict file ->
+    text): copy.deepcopy / copy.copy of the solver are structural iff this is empty"""
+    found = []
+    for fname in sorted(sources):
+        for n in ast.walk(ast.parse(sources[fname])):
+            if isinstance(n, ast.ClassDef):
+                for f in n.body:
+                    if isinstance(f, (ast.FunctionDef, ast.AsyncFunctionDef)) and \
+                            f.name in COPY_HOOKS:
+                        found.append((fname, n.name, f.name, f.lineno))
+                    if isinstance(f, ast.Assign):
+                        for t in f.targets:
+                            if isinstance(t, ast.Name) and t.id in COPY_HOOKS:
+                                found.append((fname, n.name, t.id, f.lineno))
+    return found
+
+REACHABLE = ("boltzmann.py", "containers.py", "collisionArray.py", "polynomial.py", "grid.py",
+             "grid3Scales.py", "fields.py", "particle.py")
+
 # ------------------------------------------------------------------------------------
 
 PRELUDE = """From Coq Require Import Reals List Bool.
@@ -740,19 +1062,27 @@ Local Open Scope R_scope.
 """
 
 
-def generate(boltz_src, eom_src, coll_src, cont_src):
+def generate(boltz_src, eom_src, coll_src, cont_src, reachable=None):
     tr = BoltzTranslator(boltz_src)
     deps = tr.build()
     dfacts = derivative_facts(boltz_src)
     fd = fd_copy_facts(eom_src, coll_src)
     bg = background_facts(boltz_src, cont_src)
+    sv = solve_facts(boltz_src)
+    du = deltaF_use_facts(boltz_src)
+    srcs = dict(reachable or {})
+    srcs.setdefault('boltzmann.py', boltz_src)
+    srcs.setdefault('containers.py', cont_src)
+    srcs.setdefault('collisionArray.py', coll_src)
+    hooks = copy_hook_facts(srcs)
     out = [PRELUDE, "(* generated from src/WallGo/boltzmann.py, equationOfMotion.py, "
                     "collisionArray.py *)", tr.header()] + tr.defs
     out.append(tr.setter("coll"))
     out.append("(* def-use facts of the two derivative branches *)")
     out.append("Definition deriv_facts : list dfact :=\n  [%s]." % ";\n   ".join(
-        "mk_dfact %s %s [%s] %s" % (m, t, "; ".join(p), "true" if d else "false")
-        for m, t, p, d, _, _ in dfacts))
+        "mk_dfact %s %s [%s] %s %s" % (m, t, "; ".join(p), "true" if d else "false",
+                                       "true" if al else "false")
+        for m, t, p, d, _, _, al in dfacts))
     out.append("(* aliasing facts of EOM.getBoltzmannFiniteDifference / "
                "CollisionArray.changeBasis *)")
     out.append("Definition fd_copy_kind : copykind := %s." % fd["kind"])
@@ -765,6 +1095,21 @@ def generate(boltz_src, eom_src, coll_src, cont_src):
     out.append("Definition bg_copy_kind : copykind := %s." % bg["kind"])
     out.append("Definition bg_boost_target : who := %s." % bg["target"])
     out.append("Definition bg_boost_rebinds : bool := %s." % ("true" if bg["rebinds"] else "false"))
+    out.append("(* copy hooks (%s) defined by classes in %s: %s *)" % (
+        ", ".join(COPY_HOOKS), ", ".join(sorted(srcs)),
+        "; ".join("%s:%s.%s line %d" % h for h in hooks) or "none"))
+    out.append("Definition deepcopy_structural : bool := %s." % ("false" if hooks else "true"))
+    out.append("(* solveBoltzmannEquations *)")
+    out.append("Definition solve_steps : list sstep := [%s]." % "; ".join(sv["steps"]))
+    out.append("Definition solve_shape : list saxis := [%s]." % "; ".join(sv["shape"]))
+    out.append("Definition build_flat : list saxis := [%s]." % "; ".join(sv["flat"]))
+    out.append("(* uses of deltaF in getDeltas / checkLinearization / estimateTruncationError *)")
+    out.append("Definition deltaF_uses : list (dmeth * duse) :=\n  [%s]." % ";\n   ".join(
+        "(%s, %s) (* line %d: %s *)" % (m, u, ln, " ".join(txt.replace("*)", "* )").split())) for m, u, ln, txt in du))
+    out.append(tr.ones_env())
+    out.append(tr.example_env())
+    tr.spans["solveBoltzmannEquations"] = sv["span"]
+    tr.hooks, tr.solve, tr.duses = hooks, sv, du
     tr.spans["setBackground"] = bg["span"]
     tr.spans["BoltzmannBackground.boostToPlasmaFrame"] = bg["bspan"]
     tr.bg = bg
@@ -780,6 +1125,7 @@ if __name__ == "__main__":
     import sys
     import vlib
     text, tr = generate(vlib.read_src("boltzmann.py"), vlib.read_src("equationOfMotion.py"),
-                        vlib.read_src("collisionArray.py"), vlib.read_src("containers.py"))
+                        vlib.read_src("collisionArray.py"), vlib.read_src("containers.py"),
+                        {f: vlib.read_src(f) for f in REACHABLE})
     sys.stdout.write(text)
     print(tr.deps_out, file=sys.stderr)
